@@ -131,6 +131,11 @@ func (c *VCtx) load(fr *Frame, st *State, p Val, pos token.Pos) Val {
 		switch l.Kind {
 		case "field", "cell":
 			c.checkAccess(fr, st, l, false, pos)
+			if l.Kind == "cell" && c.lmCheckCell(fr, st, l, false, pos) {
+				// racy read of a shared variable: the value is whatever some other thread last wrote
+				rv := c.freshVal("racy", l.GT)
+				return rv
+			}
 			if l.Kind == "cell" && st.cells != nil {
 				if known, ok := st.cells[l.Base.S]; ok {
 					return known
@@ -169,6 +174,9 @@ func (c *VCtx) store(fr *Frame, st *State, p Val, v Val, pos token.Pos) {
 		switch l.Kind {
 		case "field", "cell":
 			c.checkAccess(fr, st, l, true, pos)
+			if l.Kind == "cell" {
+				c.lmCheckCell(fr, st, l, true, pos)
+			}
 			hs := ArrSort(SRef, l.Sort)
 			h := c.heap(st, l.Heap, hs)
 			c.setHeap(st, l.Heap, Store(h, l.Base, tv))
@@ -329,6 +337,7 @@ func (c *VCtx) execInstr(fr *Frame, st *State, in ssa.Instruction, incoming map[
 			fr.env[x] = l
 		}
 		if fr.contract != nil && x.Comment != "" {
+			c.lmNoteAlloc(fr, x.Comment, fr.env[x])
 			c.runGhost(fr, st, fr.contract, "init "+x.Comment, nil)
 		}
 	case *ssa.BinOp:
@@ -578,6 +587,10 @@ func (c *VCtx) loopHead(fr *Frame, li *loopInfo, st *State, phis []*ssa.Phi) {
 	}
 	c.pointsHit[fmt.Sprintf("%s|loop %d", FuncKey(fr.fn), li.ordinal)] = true
 	invs := c.loopInvariants(fr, li)
+	// automatic invariants of range-over-slice loops: -1 <= rangeindex < len
+	for _, ai := range c.autoRangeInvs(fr, li, phis) {
+		c.prove(fmt.Sprintf("loop%d.init.auto-rangeindex", li.ordinal), "range index within bounds on loop entry", st.pc, ai(), nil)
+	}
 	// 1. invariant holds on entry
 	for i, inv := range invs {
 		sc := c.loopScope(fr, li, st)
@@ -586,6 +599,7 @@ func (c *VCtx) loopHead(fr *Frame, li *loopInfo, st *State, phis []*ssa.Phi) {
 	}
 	// 2. havoc what the loop modifies
 	mods, all := c.modSet(fr.fn, li.body, 0)
+	c.ghostMods(fr, mods)
 	if all {
 		c.havocAll(st)
 	} else {
@@ -639,6 +653,9 @@ func (c *VCtx) loopHead(fr *Frame, li *loopInfo, st *State, phis []*ssa.Phi) {
 		fr.env[p] = c.freshVal("phi!"+p.Comment, p.Type())
 	}
 	// 3. assume the invariant
+	for _, ai := range c.autoRangeInvs(fr, li, phis) {
+		c.fact(Implies(st.pc, ai()))
+	}
 	for _, inv := range invs {
 		sc := c.loopScope(fr, li, st)
 		c.fact(Implies(st.pc, c.translateBool(sc, inv.E)))
@@ -652,8 +669,63 @@ func clauseLabel(cl *Clause, i int) string {
 	return fmt.Sprintf("%d", i+1)
 }
 
+// autoRangeInvs recognises "rangeindex = phi[-1, rangeindex+1]; if rangeindex+1 < N" and yields -1 <= rangeindex < max(N,0)... as (rangeindex >= -1 && rangeindex < N || N <= 0 && rangeindex == -1).
+func (c *VCtx) autoRangeInvs(fr *Frame, li *loopInfo, phis []*ssa.Phi) []func() *Term {
+	var out []func() *Term
+	for _, p := range phis {
+		if p.Comment != "rangeindex" {
+			continue
+		}
+		p := p
+		// find t = p + 1 and the comparison t < N in the header
+		var bound ssa.Value
+		for _, in := range li.header.Instrs {
+			if b, ok := in.(*ssa.BinOp); ok && b.Op == token.LSS {
+				if add, ok := b.X.(*ssa.BinOp); ok && add.Op == token.ADD && add.X == p {
+					bound = b.Y
+				}
+			}
+		}
+		if bound == nil {
+			continue
+		}
+		out = append(out, func() *Term {
+			pv := c.asTerm(fr.env[p])
+			n := c.asTerm(fr.eval(bound))
+			return And(Ge(pv, IntLit(-1)), Or(Lt(pv, n), Eq(pv, IntLit(-1))))
+		})
+	}
+	return out
+}
+
 func (c *VCtx) loopBack(fr *Frame, li *loopInfo, st *State, from *ssa.BasicBlock) {
 	invs := c.loopInvariants(fr, li)
+	{
+		var phis []*ssa.Phi
+		for _, in := range li.header.Instrs {
+			if p, ok := in.(*ssa.Phi); ok {
+				phis = append(phis, p)
+			}
+		}
+		if auto := c.autoRangeInvs(fr, li, phis); len(auto) > 0 {
+			idx := predIndex(li.header, from)
+			saved := map[ssa.Value]Val{}
+			var nv []Val
+			for _, p := range phis {
+				nv = append(nv, fr.eval(p.Edges[idx]))
+			}
+			for i, p := range phis {
+				saved[p] = fr.env[p]
+				fr.env[p] = nv[i]
+			}
+			for _, ai := range auto {
+				c.prove(fmt.Sprintf("loop%d.pres.auto-rangeindex", li.ordinal), "range index stays within bounds", st.pc, ai(), nil)
+			}
+			for p, v := range saved {
+				fr.env[p] = v
+			}
+		}
+	}
 	if len(invs) == 0 {
 		return
 	}
@@ -679,6 +751,42 @@ func (c *VCtx) loopBack(fr *Frame, li *loopInfo, st *State, from *ssa.BasicBlock
 	}
 	for p, v := range saved {
 		fr.env[p] = v
+	}
+}
+
+// ghostMods adds the ghost heaps that the frame's ghost statements may write (conservatively: all of them,
+// wherever they are attached).
+func (c *VCtx) ghostMods(fr *Frame, mods map[string]Sort) {
+	if fr.contract == nil {
+		return
+	}
+	for _, g := range fr.contract.Ghost {
+		lhs, _, _ := strings.Cut(g.Src, ":=")
+		lhs = strings.TrimSpace(lhs)
+		switch {
+		case strings.Contains(lhs, "("):
+			if gi := c.ghostMapByName(lhs[:strings.Index(lhs, "(")]); gi != nil {
+				mods[gi.heap] = gi.sort
+			}
+		case strings.Contains(lhs, "."):
+			f := lhs[strings.LastIndex(lhs, ".")+1:]
+			for _, pkg := range c.relevantPkgs() {
+				for _, sp := range c.eng.Specs[pkg].Objects {
+					for _, gf := range sp.Ghost {
+						if gf.Name == f {
+							name, sort := c.ghostFieldHeapFor(sp, gf)
+							mods[name] = sort
+						}
+					}
+				}
+			}
+		default:
+			if c.localMon != nil {
+				if hn, hs, ok := c.lmGhostHeap(c.localMon, lhs); ok {
+					mods[hn] = hs
+				}
+			}
+		}
 	}
 }
 
@@ -926,6 +1034,9 @@ func (c *VCtx) modSet(fn *ssa.Function, blocks map[*ssa.BasicBlock]bool, depth i
 					mods[d] = ArrSort(SRef, ArrSort(sortOf(mt.Key()), SBool))
 					mods[v] = ArrSort(SRef, ArrSort(sortOf(mt.Key()), sortOf(mt.Elem())))
 				}
+			case *ssa.Go:
+				// the callee runs in another thread: only the spawn counter changes here
+				mods["G:calls"] = ArrSort(SRef, SInt)
 			case ssa.CallInstruction:
 				m2, a2 := c.callModSet(fn, x.Common(), depth)
 				if a2 {
